@@ -60,6 +60,7 @@ pub struct C07Searches;
 fn search_position() -> BoxedStrategy<String> {
     prop_oneof![
         5 => gen::terminal_biased(),
+        1 => gen::mating_material(),
         1 => (0usize..gen::FORCED_SEEDS.len(), prop::collection::vec(any::<u16>(), 0..4)).prop_map(|(i, sels)| {
             gen::walk_end(&gen::Walk { fen: gen::FORCED_SEEDS[i].to_string(), sels }).fen()
         }),
@@ -382,7 +383,7 @@ pub fn c07_checks() -> Vec<Box<dyn DynCheck>> {
 
 // ------------------------------------------------------------------------------ C08
 
-pub const C08_RULE: &str = "(position, depth N, game continuation) with half-move clock 0 so that clock + N + plies < 100: few-piece endgames (2..7 men; 70%) and set-up/reachable middlegames (30%), N in 1..5 (5 for <= 3 men, 4 for <= 4 men, 3 for <= 7 men, else 2), searched through alpha_beta_search or Game::select_alpha_beta_best_move on ONE SearchContext/Game reused along a generated game continuation of 0..6 further searches (engine move every ply, or engine move + generated reply). Oracle: cache-free, pruning-free minimax over the reference legal moves; leaves and no-move nodes valued as the property states: mate score for the side to move when in check without moves (read from evaluate::score on a canonical mated board for that colour and remaining depth), 0 for stalemate, otherwise evaluate::board_material_score of the position rebuilt from scratch. last_score()/alpha_beta_score() must equal minimax(root, N) and minimax(child after the returned move, N-1) must equal it too. Plus a complete enumeration of K+P(7th) v K positions (both colours) in which promoting to a queen stalemates, searched at depth 1..2(3). Non-trivial = search with a reused context (prior >= 1), or a tree containing a mate/stalemate inside the horizon; distinct = (root fingerprint, N, prior index).";
+pub const C08_RULE: &str = "(position, depth N, game continuation) with half-move clock 0 so that clock + N + plies < 100: few-piece endgames (2..7 men; 70%) and set-up/reachable middlegames (30%), N in 1..5 (5 for <= 3 men, 4 for <= 4 men, 3 for <= 7 men, else 2), searched through alpha_beta_search or Game::select_alpha_beta_best_move on ONE SearchContext/Game reused along a generated game continuation of 0..6 further searches (engine move every ply, or engine move + generated reply). Oracle: cache-free, pruning-free minimax over the reference legal moves; leaves and no-move nodes valued as the property states: mate score for the side to move when in check without moves (read from evaluate::score on a canonical mated board for that colour and remaining depth), 0 for stalemate, otherwise evaluate::board_material_score of the position rebuilt from scratch. last_score()/alpha_beta_score() must equal minimax(root, N) and minimax(child after the returned move, N-1) must equal it too. In a quarter of the cases the positions of a generated line are searched in reverse order (later position first) with one context; deep mates: overwhelming material v a bare king at depth 5..6. Plus a complete enumeration of K+P(7th) v K positions (both colours) in which promoting to a queen stalemates, searched at depth 1..2(3). Non-trivial = search with a reused context (prior >= 1), or a tree containing a mate/stalemate inside the horizon; distinct = (root fingerprint, N, prior index).";
 
 struct MateTable {
     white_mated: Vec<i16>,
@@ -393,8 +394,8 @@ fn mate_table() -> &'static MateTable {
     use std::sync::OnceLock;
     static T: OnceLock<MateTable> = OnceLock::new();
     T.get_or_init(|| MateTable {
-        white_mated: (0..=10u8).map(|d| super::pos::mate_score(true, d)).collect(),
-        black_mated: (0..=10u8).map(|d| super::pos::mate_score(false, d)).collect(),
+        white_mated: (0..=12u8).map(|d| super::pos::mate_score(true, d)).collect(),
+        black_mated: (0..=12u8).map(|d| super::pos::mate_score(false, d)).collect(),
     })
 }
 
@@ -441,6 +442,11 @@ fn terminal_value(pos: &Pos, depth: u8) -> i16 {
 
 #[derive(Clone, Debug, Serialize, Deserialize)]
 pub struct MinimaxCase {
+    /// search the positions of the continuation in REVERSE order (a later position first, then
+    /// earlier ones, as after taking moves back) with one context; replies are generated for
+    /// both sides
+    #[serde(default)]
+    pub backward: bool,
     pub fen: String,
     pub depth: u8,
     /// one entry per further search: selector of the reply played after the engine's move
@@ -451,6 +457,124 @@ pub struct MinimaxCase {
 }
 
 pub struct C08Searches;
+
+impl C08Searches {
+    /// Positions P0, P1, ... along a generated line (one ply apart) are searched from the last
+    /// to the first with ONE context and generator.
+    fn test_backward(&self, c: &MinimaxCase, start: &Pos, threads: usize, st: &mut Stats) -> TestResult {
+        let p = pool(threads);
+        let mut line = vec![start.clone()];
+        for s in c.replies.iter().take(4) {
+            let cur = line.last().unwrap();
+            let legal = cur.legal_moves();
+            if legal.is_empty() {
+                break;
+            }
+            line.push(cur.make(&gen::select(&legal, *s)));
+        }
+        let men = start.men();
+        let depth = match men {
+            0..=3 => c.depth,
+            4 => c.depth.min(4),
+            5..=7 => c.depth.min(3),
+            _ => c.depth.min(2),
+        };
+        let mut ctx = SearchContext::new(depth);
+        let mut g = MoveGenerator::new();
+        for (k, pos) in line.iter().enumerate().rev() {
+            if !pos.has_legal_move(pos.side) {
+                continue;
+            }
+            let mut info = MinimaxInfo {
+                terminal_inside: false,
+                nodes: 0,
+            };
+            let want = minimax(pos, depth, &mut info);
+            let mut board = to_board(pos);
+            let r = no_panic(|| p.install(|| alpha_beta_search(&mut ctx, &mut board, &mut g)));
+            st.count("searches", 1);
+            st.evaluations += 1;
+            st.label("backward-order-reused-context");
+            st.nontrivial(pos.fingerprint() ^ 0xBAC ^ ((depth as u64) << 56), || json!({"fen": pos.fen(), "depth": depth, "searched_after_later_positions": line.len() - 1 - k}));
+            let m = match r {
+                Ok(Ok(m)) => mv_of(&m),
+                Ok(Err(e)) => return Err(fail_pos(format!("search failed: {:?}", e), pos)),
+                Err(m) => return Err(fail_pos(format!("search panicked: {}", m), pos)),
+            };
+            if ctx.last_score() != Some(want) {
+                return Err(fail_pos(
+                    format!(
+                        "searching {} (depth {}) AFTER positions later in the same line with one context reports {:?}, exact minimax is {}",
+                        pos.fen(),
+                        depth,
+                        ctx.last_score(),
+                        want
+                    ),
+                    pos,
+                ));
+            }
+            let mut i2 = MinimaxInfo {
+                terminal_inside: false,
+                nodes: 0,
+            };
+            if !pos.legal_moves().contains(&m) || minimax(&pos.make(&m), depth - 1, &mut i2) != want {
+                return Err(fail_pos(format!("move {} returned for {} does not attain the minimax value {}", mv_text(&m), pos.fen(), want), pos));
+            }
+        }
+        Ok(())
+    }
+}
+
+/// Forced mates several moves deep: overwhelming material v a bare king at depth 5..6.
+pub struct C08DeepMates;
+impl Prop for C08DeepMates {
+    type Case = (String, u8);
+    fn name(&self) -> &'static str {
+        "C08/deep-mates"
+    }
+    fn max_shrink_iters(&self) -> u32 {
+        40
+    }
+    fn strategy(&self, _tier: Tier) -> BoxedStrategy<(String, u8)> {
+        (gen::mating_material(), 5u8..=6).boxed()
+    }
+    fn cases(&self, tier: Tier) -> u32 {
+        tier.pick(32, 480)
+    }
+    fn test(&self, c: &(String, u8), st: &mut Stats) -> TestResult {
+        let pos = Pos::from_fen(&c.0).map_err(Failure::new)?;
+        if pos.men() > 4 || !pos.has_legal_move(pos.side) {
+            return Ok(());
+        }
+        let depth = if pos.men() == 4 { c.1 } else { 6 };
+        let mut info = MinimaxInfo {
+            terminal_inside: false,
+            nodes: 0,
+        };
+        let want = minimax(&pos, depth, &mut info);
+        let mut board = to_board(&pos);
+        let mut g = MoveGenerator::new();
+        let mut ctx = SearchContext::new(depth);
+        let r = no_panic(|| pool(4).install(|| alpha_beta_search(&mut ctx, &mut board, &mut g)));
+        st.count("reference_nodes", info.nodes);
+        if info.terminal_inside {
+            st.nontrivial(pos.fingerprint() ^ depth as u64, || json!({"fen": pos.fen(), "depth": depth, "minimax": want}));
+        }
+        match r {
+            Ok(Ok(_)) => {
+                if ctx.last_score() != Some(want) {
+                    return Err(fail_pos(
+                        format!("depth-{} search of {} reports {:?}, exact minimax is {}", depth, pos.fen(), ctx.last_score(), want),
+                        &pos,
+                    ));
+                }
+                Ok(())
+            }
+            Ok(Err(e)) => Err(fail_pos(format!("search failed: {:?}", e), &pos)),
+            Err(m) => Err(fail_pos(format!("search panicked: {}", m), &pos)),
+        }
+    }
+}
 
 impl Prop for C08Searches {
     type Case = MinimaxCase;
@@ -470,6 +594,7 @@ impl Prop for C08Searches {
                 1 => gen::cage_theme().prop_map(move |r| zero(gen::build(&r))),
                 1 => gen::terminal_biased(),
                 1 => gen::pre_terminal(),
+                2 => gen::mating_material(),
                 1 => gen::placement(12).prop_map(move |r| zero(gen::build(&r))),
                 1 => gen::walk(50).prop_map(move |w| zero(gen::walk_end(&w))),
             ],
@@ -478,8 +603,10 @@ impl Prop for C08Searches {
             any::<bool>(),
             any::<bool>(),
             0u8..6,
+            prop::bool::weighted(0.25),
         )
-            .prop_map(|(fen, depth, replies, every_ply, via_game, pool)| MinimaxCase {
+            .prop_map(|(fen, depth, replies, every_ply, via_game, pool, backward)| MinimaxCase {
+                backward,
                 fen,
                 depth,
                 replies,
@@ -500,6 +627,9 @@ impl Prop for C08Searches {
         pos.half = 0;
         let threads = POOL_SIZES[c.pool as usize % POOL_SIZES.len()];
         let p = pool(threads);
+        if c.backward {
+            return self.test_backward(c, &pos, threads, st);
+        }
         let mut game: Option<Game> = None;
         let mut raw: Option<(Board, MoveGenerator, SearchContext)> = None;
         let searches = c.replies.len() + 1;
@@ -774,6 +904,7 @@ fn run_c08_underpromotion(env: &Env, agg: &mut Stats) -> Option<Violation> {
 pub fn c08_checks() -> Vec<Box<dyn DynCheck>> {
     vec![
         Box::new(C08Searches),
+        Box::new(C08DeepMates),
         Box::new(FnCheck {
             name: "C08/underpromotion",
             run: run_c08_underpromotion,
